@@ -11,7 +11,16 @@ from pyval import enc, norm, exc_code
 import yamlfs
 from yamlfs import DIR
 
-from vinegar.data_source.yaml_target import YamlTargetSource
+import vinegar.data_source
+from vinegar.data_source.yaml_target import YamlTargetSource as _YamlTargetSource
+
+
+def YamlTargetSource(cfg):
+    """sources are created the way the server wires them: get_data_source -> yaml_target.get_instance"""
+    src = vinegar.data_source.get_data_source("yaml_target", cfg)
+    assert isinstance(src, _YamlTargetSource)
+    return src
+
 from vinegar.utils.cache import LRUCache
 
 LRU_KEYS = ["a", "b", "c"]
@@ -42,6 +51,8 @@ def apply_op(tree, op):
         t[op[1]] = op[2]
     elif kind == "delete":
         t.pop(op[1], None)
+    elif kind == "inplace":                    # same length, same inode, old mtime put back
+        t[op[1]] = op[2]
     elif kind == "swap":                       # name.yaml <-> name/init.yaml
         f, i = op[1] + ".yaml", op[1] + "/init.yaml"
         if f in t and i not in t:
@@ -71,6 +82,11 @@ def snapshots(c):
     faults = {}
     out = []
     for op in c["ops"]:
+        if op[0] == "nested":
+            if c.get("engine") and c.get("peek"):
+                out.append((tree, pd, pv, op[2], dict(faults)))
+            out.append((tree, pd, pv, op[1], dict(faults)))
+            continue
         if op[0] in ("get", "race"):
             if op[0] == "race":            # the file changes DURING this call: the call itself is not judged
                 tree = apply_op(tree, ("edit", op[2], op[3]))
@@ -109,7 +125,28 @@ def mutate(v):
         v.add("scribbled")
 
 
-def config(c, root, cache_size):
+class Peek:
+    """the function `peek` offered to the templates (template_config.context): when armed it makes ONE re-entrant
+    get_data call for another system on the same source - an overlapping call without threads"""
+    def __init__(self):
+        self.armed = None
+        self.result = None
+
+    def __call__(self):
+        if self.armed is not None:
+            src, sysid, pd, pv = self.armed
+            self.armed = None
+            self.result = get(src, sysid, pd, pv)
+        return ""
+
+
+def config(c, root, cache_size, peek=None):
+    if c.get("peek"):
+        return dict(_config(c, root, cache_size), template_config={"context": {"peek": peek or (lambda: "")}})
+    return _config(c, root, cache_size)
+
+
+def _config(c, root, cache_size):
     return {"root_dir": root, "template": "jinja" if c["engine"] else None, "merge_lists": c["ml"], "merge_sets": c["ms"],
             "allow_empty_top": c["allow_empty"], "cache_size": cache_size}
 
@@ -214,9 +251,10 @@ def run_real(c):
         yamlfs.materialise(tree, root)
         # one long-lived source - or two over the same directory serving the gets alternately (caching is transparent,
         # so which of them answers, and what the other one has cached meanwhile, must not matter)
-        srcs = [YamlTargetSource(config(c, root, c["cache_size"]))]
+        peek = Peek()
+        srcs = [YamlTargetSource(config(c, root, c["cache_size"], peek))]
         if c.get("nsrc", 1) == 2:
-            srcs.append(YamlTargetSource(config(c, root, 1)))
+            srcs.append(YamlTargetSource(config(c, root, 1, peek)))
         ngets = 0
         pd, pv = yamlfs.PRECEDING[0]
         faults = {}
@@ -232,12 +270,29 @@ def run_real(c):
                         mutate(r[1])                      # isolation: must not show up in any later result
                     f = get(YamlTargetSource(config(c, root, 0)), op[1], pd, pv)
                 out.append((snap, f))
+            elif op[0] == "nested":
+                # get_data(A) during which - while a template is rendered - get_data(B) is called on the same source
+                peek.armed, peek.result = (src, op[2], pd, pv), None
+                ra = get(src, op[1], pd, pv)
+                peek.armed = None
+                pairs = []
+                if peek.result is not None:
+                    pairs.append((op[2], peek.result))
+                pairs.append((op[1], ra))
+                for sysid, r in pairs:
+                    snap = copy.deepcopy(r)
+                    if r[0] == "ok":
+                        mutate(r[1])
+                    out.append((snap, get(YamlTargetSource(config(c, root, 0)), sysid, pd, pv)))
             elif op[0] == "race":
                 with RaceEdit(root, op[2], op[3]):
                     get(src, op[1], pd, pv)           # old or new content: both are legitimate for this call
                 tree = apply_op(tree, ("edit", op[2], op[3]))
             elif op[0] == "pre":
                 pd, pv = yamlfs.PRECEDING[op[1]]
+            elif op[0] == "inplace":
+                yamlfs.write_inplace_keep_mtime(root, op[1], op[2])
+                tree = apply_op(tree, op)
             elif op[0] == "switch":
                 # a new release directory with the tree after the inner operation; then the link is re-pointed
                 new = apply_op(tree, op[1])
@@ -497,6 +552,39 @@ class C12(Check):
             ops = [("get", "s1"), ("edit", "a.yaml", "k: 4\n"), ("get", "s1"), ("swap", "a"), ("get", "s1")]
             yield {"base": BASE_T, "ops": ops, "cache_size": 2, "engine": True, "ml": False, "ms": True, "allow_empty": False,
                    "rootname": name, "loglevel": "DEBUG"}
+        # an in-place rewrite of the same length with the old mtime put back (only ctime tells): top file and data files,
+        # template engine on and off
+        def same_len(text, old, new):
+            assert len(old) == len(new) and old in text
+            return text.replace(old, new, 1)
+        for engine, b in ((True, BASE_T), (False, BASE)):
+            edits = [("a.yaml", same_len(b["a.yaml"], "m: 1", "m: 7")), ("d/x.yaml", same_len(b["d/x.yaml"], "m: 2", "m: 8")),
+                     ("top.yaml", same_len(b["top.yaml"], "[a, d]", "[d, a]")), ("d/init.yaml", same_len(b["d/init.yaml"], "k: 3", "k: 9"))]
+            for rel, new in edits:
+                ops = [("get", "s1"), ("get", "s2"), ("inplace", rel, new), ("get", "s1"), ("get", "s2"), ("inplace", rel, b[rel]), ("get", "s1"),
+                       ("inplace", rel, new), ("get", "s2")]
+                for cs in (0, 64):
+                    yield {"base": b, "ops": ops, "cache_size": cs, "engine": engine, "ml": False, "ms": True, "allow_empty": False}
+        # overlapping calls for different systems on one source without threads: while top.yaml is rendered for system A a
+        # function offered to the templates calls get_data for system B on the same source
+        nb = {"top.yaml": "{{ peek() }}'*': [common]\n's1': [one]\n's2': [two]\n", "common.yaml": "who: {{ id }}\n", "one.yaml": "only_1: 1\n",
+              "two.yaml": "only_2: 2\ninclude: [common]\n"}
+        for cs in (64, 1, 0):
+            yield {"base": nb, "ops": [("nested", "s1", "s2"), ("get", "s1"), ("get", "s2"), ("edit", "one.yaml", "only_1: 3\n"),
+                                       ("nested", "s2", "s1"), ("get", "s1"), ("get", "s2")],
+                   "cache_size": cs, "engine": True, "ml": False, "ms": True, "allow_empty": False, "peek": True}
+        # a white-space-only name appears in top.yaml / an include list and goes away again (an init.yaml sits in the tree root)
+        wsb = dict(BASE, **{"init.yaml": "rootinit: 1\n"})
+        yield {"base": wsb, "ops": [("get", "s1"), ("edit", "top.yaml", "'*': [a, ' ']\n"), ("get", "s1"), ("get", "s2"),
+                                    ("edit", "top.yaml", BASE["top.yaml"]), ("get", "s1"), ("edit", "a.yaml", "k: 1\ninclude: [\"\\t\"]\n"), ("get", "s1"),
+                                    ("edit", "a.yaml", BASE["a.yaml"]), ("get", "s1")],
+               "cache_size": 64, "engine": False, "ml": False, "ms": True, "allow_empty": False}
+        # text a template engine would treat as markup, with templating switched off (template: None through the factory)
+        mk = {"top.yaml": "'*': [a]\n# {% if id == 's1' %}\n's1': [b]\n# {% endif %}\n", "a.yaml": "k: '{{ later }}'\ninclude: [b]\n",
+              "b.yaml": "m: \"{# note #}x\"\n"}
+        yield {"base": mk, "ops": [("get", "s1"), ("edit", "b.yaml", "m: '{{ 1 + 1 }}'\n"), ("get", "s1"), ("get", "s2"),
+                                   ("edit", "a.yaml", "k: '{% raw %}'\n"), ("get", "s1")],
+               "cache_size": 64, "engine": False, "ml": False, "ms": True, "allow_empty": False}
         # values that yaml.safe_load does not turn into dict / list / set / scalar: !!omap and !!pairs (lists of TUPLES whose
         # members can be mutable), !!binary (bytes), !!timestamp (date objects); every returned tree is scribbled over
         exotic = ["bo: !!omap [ disk: {timeout: 5}, net: [1, 2] ]\nm: 1\n", "bo: !!pairs [ a: {x: 1}, a: [2] ]\n",
